@@ -826,7 +826,7 @@ func TestVerifC08Beacon(t *testing.T) {
 	}
 	ncases := 150
 	if tier == "thorough" {
-		ncases = 1500
+		ncases = 1000
 	}
 	kinds := []string{"churn", "churn", "churn", "lazy", "icpt", "parallel", "restart"}
 	for i := 0; i < ncases; i++ {
